@@ -72,18 +72,20 @@ class Copies:
                 self.defs[name] = v
 
     def expand(self, e: ast.AST, depth: int = 4) -> ast.AST:
-        if depth == 0:
-            return e
-        defs = self.defs
-        outer = self
-
-        class T(ast.NodeTransformer):
-            def visit_Name(self, n):
-                if isinstance(n.ctx, ast.Load) and n.id in defs:
-                    return outer.expand(defs[n.id], depth - 1)
-                return n
-        import copy
-        return T().visit(copy.deepcopy(e))
+        """copy of `e` with single-assignment locals replaced by their definitions (parent links are not copied)"""
+        if isinstance(e, ast.Name) and isinstance(e.ctx, ast.Load) and e.id in self.defs and depth > 0:
+            return self.expand(self.defs[e.id], depth - 1)
+        new = e.__class__()
+        for name, value in ast.iter_fields(e):
+            if isinstance(value, ast.AST):
+                value = self.expand(value, depth)
+            elif isinstance(value, list):
+                value = [self.expand(x, depth) if isinstance(x, ast.AST) else x for x in value]
+            setattr(new, name, value)
+        for a in ('lineno', 'col_offset', 'end_lineno', 'end_col_offset'):
+            if hasattr(e, a):
+                setattr(new, a, getattr(e, a))
+        return new
 
     def xnorm(self, e: ast.AST) -> str:
         return norm(self.expand(e))
